@@ -469,4 +469,201 @@ def Shape.meaning : Shape → List Inter
 def normalise (ns : List Norm) (s : Shape) : List Inter :=
   (ns.foldl (fun s n => n.step s) s).iterate
 
+/-! ## LinUCB linear algebra over ℚ (coba/learners/linucb.py `_pmf`, `learn`) -/
+
+/-- dot product (`u @ v`) -/
+def dotQ (u v : List Rat) : Rat := (List.zipWith (· * ·) u v).sum
+/-- matrix (rows) times vector (`M @ f`) -/
+def matVecQ (M : List (List Rat)) (f : List Rat) : List Rat := M.map (fun row => dotQ row f)
+/-- `np.identity(d)` -/
+def identityQ (d : Nat) : List (List Rat) :=
+  (List.range d).map (fun i => (List.range d).map (fun j => if i = j then 1 else 0))
+
+/-- the learner's state: `_theta`, `_A_inv` -/
+structure LinState where
+  theta : List Rat
+  ainv : List (List Rat)
+
+/-- `_initialize`: θ = zeros(d), A⁻¹ = identity(d) -/
+def LinState.init (d : Nat) : LinState := ⟨List.replicate d 0, identityQ d⟩
+
+/-- learn: r = θ·f, w = A⁻¹f, v = w·f, A⁻¹ := A⁻¹ − wwᵀ/(1+v), θ := θ + (reward−r)/(1+v)·w
+(linucb.py `learn`) -/
+def LinState.learn (s : LinState) (f : List Rat) (reward : Rat) : LinState :=
+  let r := dotQ s.theta f
+  let w := matVecQ s.ainv f
+  let v := dotQ w f
+  ⟨List.zipWith (fun t wi => t + (reward - r) / (1 + v) * wi) s.theta w,
+   List.zipWith (fun row wi => List.zipWith (fun a wj => a - wi * wj / (1 + v)) row w) s.ainv w⟩
+
+/-- `_pmf`: per action feature vector f: (θ·f , fᵀA⁻¹f) -/
+def LinState.score (s : LinState) (f : List Rat) : Rat × Rat :=
+  (dotQ s.theta f, dotQ (matVecQ s.ainv f) f)
+
+/-- one call on the learner: `learn` with the chosen action's features, or `_pmf` with every action's -/
+inductive LinEvent
+  | learn (f : List Rat) (reward : Rat)
+  | predict (fs : List (List Rat))
+
+/-- the scores of every predict event in order, and the final state -/
+def linRun (s : LinState) : List LinEvent → List (List (Rat × Rat)) × LinState
+  | [] => ([], s)
+  | .learn f r :: es => linRun (s.learn f r) es
+  | .predict fs :: es => (fs.map s.score :: (linRun s es).1, (linRun s es).2)
+
+/-- lay a vector out in another order: position k holds the old position `p[k]` -/
+def permV (p : List Nat) (v : List Rat) : List Rat := p.map (fun i => v.getD i 0)
+/-- the same re-ordering of rows and columns -/
+def permM (p : List Nat) (M : List (List Rat)) : List (List Rat) :=
+  p.map (fun i => permV p (M.getD i []))
+def LinState.perm (p : List Nat) (s : LinState) : LinState := ⟨permV p s.theta, permM p s.ainv⟩
+def LinEvent.perm (p : List Nat) : LinEvent → LinEvent
+  | .learn f r => .learn (permV p f) r
+  | .predict fs => .predict (fs.map (permV p))
+
+/-- dimensions agree: θ has n entries, A⁻¹ is n×n -/
+def LinState.WF (n : Nat) (s : LinState) : Prop :=
+  s.theta.length = n ∧ s.ainv.length = n ∧ ∀ row ∈ s.ainv, row.length = n
+/-- every feature vector of the event has n entries -/
+def LinEvent.WF (n : Nat) : LinEvent → Prop
+  | .learn f _ => f.length = n
+  | .predict fs => ∀ f ∈ fs, f.length = n
+
+/-! ## Phase 4: an explicit model of IEEE double rounding (round-to-nearest-even to 53 significant bits over ℚ,
+exponent range unbounded). `ExactOn fmul53` is PROVED in Lemmas (`exactOn_fmul53`) and the whole function is compared
+with CPython's double multiplication step by step through the driver op "fl53". -/
+
+/-- `2^e` for an integer exponent -/
+def pow2 (e : Int) : Rat := if 0 ≤ e then (2 : Rat) ^ e.toNat else 1 / (2 : Rat) ^ (-e).toNat
+
+/-- nearest integer to `s ≥ 0`, ties to the even neighbour (`s = num/den` in lowest terms: an integer has
+`den = 1`, remainder 0 and is returned as it is) -/
+def roundHalfEven (s : Rat) : Nat :=
+  let n := s.num.natAbs
+  let quo := n / s.den
+  let rem := n % s.den
+  if 2 * rem < s.den then quo
+  else if s.den < 2 * rem then quo + 1
+  else if quo % 2 = 0 then quo else quo + 1
+
+/-- the exponent `e` with `2^(prec-1) ≤ a / 2^e < 2^prec` for `a > 0`: first guess from the bit lengths of numerator
+and denominator (it is right or one too small), corrected by one comparison -/
+def expo (prec : Nat) (a : Rat) : Int :=
+  let e0 : Int := (a.num.natAbs.log2 : Int) - (a.den.log2 : Int) - (prec : Int)
+  if a * pow2 (-e0) < (2 : Rat) ^ prec then e0 else e0 + 1
+
+/-- round-to-nearest, ties-to-even, to `prec` significant bits; the exponent range is unbounded (no under/overflow) -/
+def roundSig (prec : Nat) (q : Rat) : Rat :=
+  if q = 0 then 0 else
+  let a : Rat := if q < 0 then -q else q
+  let e := expo prec a
+  let r : Rat := (roundHalfEven (a * pow2 (-e)) : Rat) * pow2 e
+  if q < 0 then -r else r
+
+/-- rounding to IEEE double precision (53 significant bits) -/
+def fl53 (q : Rat) : Rat := roundSig 53 q
+
+/-- IEEE double multiplication away from under/overflow: the exact product, rounded -/
+def fmul53 (a b : Rat) : Rat := fl53 (a * b)
+
+/-! ## Phase 4: the named monomials of a sparse call and when two of them collide -/
+
+/-- the named monomials of a sparse call, in order, BEFORE they are put into the mapping: for every distinct
+term the (concatenated name, product) pairs of its monomials, then the constant entry when non-zero
+(`encodeS` on the sparse path is `dictOf` of exactly this list: `encode_sparse_eq_dictOf_monos`) -/
+def sparseMonos (is : List Inter) (kw : List (Char × NsVal)) : List (String × Rat) :=
+  termsS pairMul pairOne (featsSparse kw) (dedupFirst (strTerms is))
+    ++ (if constant is ≠ 0 then [("const", constant is)] else [])
+
+/-- two different positions of a list carry the same element -/
+def hasDup {β : Type} [DecidableEq β] : List β → Bool
+  | [] => false
+  | x :: r => r.contains x || hasDup r
+
+/-- two different monomials of the call (or a monomial and the constant) carry the same name -/
+def collides (is : List Inter) (kw : List (Char × NsVal)) : Bool :=
+  hasDup ((sparseMonos is kw).map (·.1))
+
+/-! ## Phase 4: translator target for the `learn` bodies of linucb.py / lints.py -/
+
+/-! translator target: the body of `learn` (linucb.py / lints.py) as a tiny straight-line program over numpy-like values -/
+inductive LVal
+  | s (q : Rat) | v (xs : List Rat) | m (rows : List (List Rat)) | bad
+
+inductive LExp
+  | theta | ainv | feat | reward | var (i : Nat) | one
+  | matmul (a b : LExp) | outer (a b : LExp)
+  | add (a b : LExp) | sub (a b : LExp) | mul (a b : LExp) | div (a b : LExp)
+
+inductive LStmt
+  | assign (i : Nat) (e : LExp) | setTheta (e : LExp) | setAinv (e : LExp)
+
+/-- `@` on 1-D / 2-D arrays as used in `learn` -/
+def LVal.matmul : LVal → LVal → LVal
+  | .v a, .v b => .s (dotQ a b)
+  | .m a, .v b => .v (matVecQ a b)
+  | _, _ => .bad
+
+/-- `np.outer` -/
+def LVal.outer : LVal → LVal → LVal
+  | .v a, .v b => .m (a.map (fun x => b.map (fun y => x * y)))
+  | _, _ => .bad
+
+/-- elementwise arithmetic with scalar broadcasting -/
+def LVal.arith (op : Rat → Rat → Rat) : LVal → LVal → LVal
+  | .s a, .s b => .s (op a b)
+  | .v a, .v b => .v (List.zipWith op a b)
+  | .m a, .m b => .m (List.zipWith (List.zipWith op) a b)
+  | .s a, .v b => .v (b.map (fun x => op a x))
+  | .v a, .s b => .v (a.map (fun x => op x b))
+  | .m a, .s b => .m (a.map (fun row => row.map (fun x => op x b)))
+  | .s a, .m b => .m (b.map (fun row => row.map (fun x => op a x)))
+  | _, _ => .bad
+
+def LExp.eval (st : LinState) (f : List Rat) (r : Rat) (env : List LVal) : LExp → LVal
+  | .theta => .v st.theta
+  | .ainv => .m st.ainv
+  | .feat => .v f
+  | .reward => .s r
+  | .var i => env.getD i .bad
+  | .one => .s 1
+  | .matmul a b => (a.eval st f r env).matmul (b.eval st f r env)
+  | .outer a b => (a.eval st f r env).outer (b.eval st f r env)
+  | .add a b => LVal.arith (· + ·) (a.eval st f r env) (b.eval st f r env)
+  | .sub a b => LVal.arith (· - ·) (a.eval st f r env) (b.eval st f r env)
+  | .mul a b => LVal.arith (· * ·) (a.eval st f r env) (b.eval st f r env)
+  | .div a b => LVal.arith (· / ·) (a.eval st f r env) (b.eval st f r env)
+
+/-- run the statements in order; local `i` must be the next free slot; `self._theta` / `self._A_inv` reads see earlier writes -/
+def runLearn : List LStmt → LinState → List Rat → Rat → List LVal → Option LinState
+  | [], st, _, _, _ => some st
+  | .assign i e :: ps, st, f, r, env =>
+      if i = env.length then runLearn ps st f r (env ++ [e.eval st f r env]) else none
+  | .setTheta e :: ps, st, f, r, env =>
+      match e.eval st f r env with
+      | .v t => runLearn ps ⟨t, st.ainv⟩ f r env
+      | _ => none
+  | .setAinv e :: ps, st, f, r, env =>
+      match e.eval st f r env with
+      | .m a => runLearn ps ⟨st.theta, a⟩ f r env
+      | _ => none
+
+/-- what the straight-line program of `learn` evaluates to, literally (numpy operation by numpy operation) -/
+def LinState.learnAlt (s : LinState) (f : List Rat) (reward : Rat) : LinState :=
+  let r := dotQ s.theta f
+  let w := matVecQ s.ainv f
+  let v := dotQ w f
+  ⟨List.zipWith (· + ·) s.theta (w.map (fun x => (reward - r) / (1 + v) * x)),
+   List.zipWith (List.zipWith (· - ·)) s.ainv
+     ((w.map (fun x => w.map (fun y => x * y))).map (fun row => row.map (fun x => x / (1 + v))))⟩
+
+/-- a history run with a `learn` PROGRAM (the translator's reading of the source) in place of `LinState.learn` -/
+def linRunProg (prog : List LStmt) (s : LinState) : List LinEvent → Option LinState
+  | [] => some s
+  | .learn f r :: es =>
+      match runLearn prog s f r [] with
+      | some s' => linRunProg prog s' es
+      | none => none
+  | .predict _ :: es => linRunProg prog s es
+
 end Coba.C20
